@@ -47,7 +47,14 @@ func carriedSetup() {
 	common.SetBlockHeight(20)
 }
 
+// checkCarried runs the chain twice: converting the decoded transaction at once, and after the calls the
+// RPC entry point makes on the same object before it converts (Hash, then the funds check's Cost).
 func checkCarried(c *fw.Ctx, n *big.Int) {
+	checkCarriedSeq(c, n, false)
+	checkCarriedSeq(c, n, true)
+}
+
+func checkCarriedSeq(c *fw.Ctx, n *big.Int, rpcOrder bool) {
 	c.Eval(1)
 	k := kase{Kind: "carried", N: n.String()}
 	var got *big.Int
@@ -76,8 +83,15 @@ func checkCarried(c *fw.Ctx, n *big.Int) {
 			msg = "Sender: " + err.Error()
 			return
 		}
+		if rpcOrder {
+			dec.Hash()
+			dec.Cost()
+		}
 		w := eth_tx.ConvertTx(dec, snd, enc)
 		_, got, _, msg = executor.VerifDecodeContractData(w.Data)
+		if rpcOrder {
+			msg += " (after Hash and Cost on the same object, as the RPC entry point calls them)"
+		}
 	})
 	if p {
 		c.Violation("C18:carried:panic:"+where, "carried-value", fmt.Sprintf("panic %v for value %s", v, n), k)
